@@ -1041,18 +1041,33 @@ fn get_quote_trait_params<'a>(input: &DataType, ctx: &'a ImplContext) -> QuoteTr
         let missing_lt = impl_gens.params.iter().all(|param| {
             if let GenericParam::Lifetime(param) = param {
                 &param.lifetime != lt
-            } else { false }
+            } else { true }
         });
 
         if missing_lt {
             let gen = GenericArgument::Lifetime(lt.clone());
-            impl_gens.params.push(parse_quote!(#gen));
+            let idx = impl_gens.params.iter().take_while(|p| matches!(p, GenericParam::Lifetime(_))).count();
+            impl_gens.params.insert(idx, parse_quote!(#gen));
         }
     }
 
     if !ref_lts.is_empty() {
-        impl_gens.params.push(parse_quote!('o2o: #( #ref_lts )+*));
+        let idx = impl_gens.params.iter().take_while(|p| matches!(p, GenericParam::Lifetime(_))).count();
+        impl_gens.params.insert(idx, parse_quote!('o2o: #( #ref_lts )+*));
     }
+
+    let (_, ty_generics, own_where_clause) = input.get_generics().split_for_impl();
+    let impl_generics = impl_gens.split_for_impl().0.to_token_stream();
+    let attr_where_clause = input.get_attrs().where_attr(&ctx.struct_attr.ty).map(|x| &x.where_clause);
+    let where_clause = match (own_where_clause, attr_where_clause) {
+        (None, None) => None,
+        (None, Some(a)) => Some(quote!(where #a)),
+        (Some(o), None) => Some(o.to_token_stream()),
+        (Some(o), Some(a)) => {
+            let p = o.predicates.iter();
+            Some(quote!(where #(#p,)* #a))
+        },
+    };
 
     QuoteTraitParams { 
         attr: ctx.struct_attr.attribute.as_ref(), 
@@ -1060,13 +1075,10 @@ fn get_quote_trait_params<'a>(input: &DataType, ctx: &'a ImplContext) -> QuoteTr
         inner_attr: ctx.struct_attr.inner_attribute.as_ref(), 
         dst: ctx.dst_ty, 
         src: ctx.src_ty, 
-        these_gens: input.get_generics().to_token_stream(),
+        these_gens: ty_generics.to_token_stream(),
         those_gens: ctx.struct_attr.ty.generics.to_token_stream(),
-        impl_gens: impl_gens.to_token_stream(), 
-        where_clause: input.get_attrs().where_attr(&ctx.struct_attr.ty).map(|x| {
-            let where_clause = &x.where_clause;
-            quote!(where #where_clause)
-        }), 
+        impl_gens: impl_generics,
+        where_clause,
         r: ctx.kind.is_ref().then_some(if ref_lts.is_empty() { quote!(&) } else { quote!(&'o2o) }) 
     }
 }
